@@ -185,6 +185,7 @@ def c11 (op : String) (args : List Sexp) : Verdict :=
          | .ok _ => .diff "model builds a codec; implementation rejects the pair"
          | .error _ => .ok "trivial/both-builderr")
       | .list [.atom "decodeerr"] => .ok "trivial/decode-error"
+      | .list [.atom "ok", _, .atom "no-stable-baseline"] => .ok "trivial/gc-encode/value-without-stable-baseline"
       | .list (.atom "changed" :: _) =>
         .oracle s!"a decoded value did not survive garbage collection and allocation churn ({mode}): {impl}"
       | .list (.atom "panic" :: _) => .oracle s!"panic under garbage-collection pressure ({mode}): {impl}"
